@@ -77,6 +77,12 @@ def _defs():
     D['TensorMatrixDotProduct'] = dict(out=('$2', ['i']), mode='+=', term=cell('$0', 'k', 'i', 'j') * cell('$1', 'j', 'k'),
                                        dom={'k': (Z, A('$0->order')), 'i': (Z, A('$0->m[k]->row')), 'j': (Z, A('$0->m[k]->col'))},
                                        text='v[i] += sum_jk t[k][i][j] m[j][k]')
+    one = Rat(Poly.const(1))
+    avg = lambda ix: cell('MatrixColAverage($0)', ix)
+    D['MatrixCovariance'] = dict(out=('$1', ['i', 'j']), mode='+=',
+                                 term=(cell('$0', 'k', 'i') - avg('i')) * (cell('$0', 'k', 'j') - avg('j')) / Rat(A('$0->row') - 1),
+                                 dom={'i': (Z, A('$0->col')), 'j': (Z, A('$0->col')), 'k': (Z, A('$0->row'))},
+                                 text='cm[i][j] = sum_k (m[k][i] - mean_i)(m[k][j] - mean_j) / (rows - 1)  (both factors centred: symmetric, PSD to rounding)')
     return D
 
 
@@ -133,6 +139,8 @@ class Extractor:
             nm = base['referencedDecl'].get('name')
             if nm in self.pidx:
                 return '$%d' % self.pidx[nm]
+            if nm in getattr(self, 'local_arrays', {}):
+                return self.local_arrays[nm]
         return None
 
     def cell_ref(self, n, ienv):
@@ -299,8 +307,18 @@ class Extractor:
                 idx = [self.shape_poly(x, ienv) for x in a[1:-1]]
                 self.store(arr, idx, '=', a[-1], loops, ienv, fenv, s0)
                 return
-            if cn in ('printf', 'fprintf', 'fflush', 'puts', 'abort', 'ResizeMatrix', 'DVectorResize'):
+            if cn in ('printf', 'fprintf', 'fflush', 'puts', 'abort', 'ResizeMatrix', 'DVectorResize', 'initDVector', 'DelDVector', 'initMatrix', 'DelMatrix'):
                 return          # (re)sizing the output is a shape matter (E1), not part of the cell form
+            if cn in ('MatrixColAverage', 'MatrixRowAverage', 'MatrixColSDEV', 'MatrixColVar') and len(a) == 2 and self.arr_of(a[0]):
+                # a local vector filled with a per-column / per-row statistic of a parameter: a symbolic array
+                t_ = strip(a[1])
+                if t_.get('kind') == 'UnaryOperator' and t_.get('opcode') == '&':
+                    t_ = strip(kids(t_)[0])
+                if t_.get('kind') == 'DeclRefExpr' and t_['referencedDecl'].get('name') not in self.pidx:
+                    if not hasattr(self, 'local_arrays'):
+                        self.local_arrays = {}
+                    self.local_arrays[t_['referencedDecl'].get('name')] = '%s(%s)' % (cn, self.arr_of(a[0]))
+                    return
             if cn == 'DVectorAppend' and len(a) == 2 and self.arr_of(a[0]) and len(loops) == 1 and str(loops[0][1]) == '0' and loops[0][3] == 1:
                 # appended once per iteration of a single loop from 0: entry number i of the appended range
                 self.emit((self.arr_of(a[0]), [Poly.atom(loops[0][0])]), 'append', self.rat(a[1], ienv, fenv), loops, s0)
@@ -385,6 +403,17 @@ class Extractor:
             for term, lp, nd in self.acc[r0['referencedDecl'].get('name')]:
                 self.emit((arr, idx), '+=', term, lp, nd)
             return
+        if op == '=' and r0.get('kind') == 'BinaryOperator' and r0.get('opcode') in ('/', '*'):
+            x, dn = kids(r0)
+            x0 = strip(x)
+            if x0.get('kind') == 'ParenExpr':
+                x0 = strip(kids(x0)[0])
+            if x0.get('kind') == 'DeclRefExpr' and x0['referencedDecl'].get('name') in self.acc and not fe.is_float_type(strip(dn, casts=True)) :
+                # out = accumulator / (shape expression): the accumulator was reset for this output cell, so this is the scaled sum
+                sc = Rat(self.shape_poly(dn, ienv))
+                for term, lp, nd in self.acc[x0['referencedDecl'].get('name')]:
+                    self.emit((arr, idx), '+=', term / sc if r0['opcode'] == '/' else term * sc, lp, nd)
+                return
         if op not in ('=', '+='):
             raise Unsupported('store operator %s' % op)
         self.emit((arr, idx), op, self.rat(rhs, ienv, fenv), loops, node)
@@ -443,7 +472,7 @@ class UnrollMismatch(Exception):
 
 def shift_atom(at, var, d):
     """cell atom with loop variable var replaced by var + d inside its index polynomials (textual, canonical Poly printing)"""
-    if d == 0:
+    if d == 0 or not at.endswith(']'):
         return at
     arr, rest = at.split('[', 1)
     parts = rest[:-1].split('][')
@@ -535,6 +564,9 @@ def unify(ex, contribs, d):
         # term: rename inside cell atoms
         sub = {}
         for at in c.term.atoms():
+            if not at.endswith(']'):
+                sub[at] = norm(Poly.atom(at), ren, cm)          # a shape atom (rows - 1 in a divisor)
+                continue
             arr, rest = at.split('[', 1)
             parts = rest[:-1].split('][')
             sub[at] = Poly.atom('%s[%s]' % (arr, ']['.join(str(norm(parse_index(p_), ren)) for p_ in parts)))
